@@ -72,6 +72,9 @@ class History:
         self.read_seen = False
         self.nontrivial = False
         self.failed = None
+        # the settings the object MUST have, tracked from the operations' arguments only (never read back from the object)
+        self.exp_sff = np.array(sff, dtype=float)
+        self.exp_rt = np.array(rt, dtype=float)
 
     def do(self, name, args=None, rng=None):
         """returns False when the call raised (the history ends there)"""
@@ -94,6 +97,11 @@ class History:
         if res[0] != 'ok':
             self.failed = (name, res[1])
             return False
+        nsff, nrt = O.expected_settings(name, args, self.exp_sff, self.exp_rt)
+        if nsff is not None:
+            self.exp_sff = nsff
+        if nrt is not None:
+            self.exp_rt = nrt
         self.ops.append([name, args])
         self.mnames.append(O.model_name(name, self.s))
         if self.read_seen:
@@ -119,6 +127,20 @@ def check_state(ctx, h, idem=False, collect=None):
     obs, ref = res[1]
     fresh = {q: O.same(obs[q], ref[q]) for q in quants}
     opnames = [o[0] for o in h.ops]
+    if collect is None:
+        # the settings themselves: what the object reports must be what the operations SET (tracked from their arguments), so that
+        # a settings call that silently does nothing cannot hide behind a comparison object built from the object's own settings
+        okf = O.same(np.asarray(s.smooth_fa_freqs, dtype=float), h.exp_sff) or bool(
+            np.shape(s.smooth_fa_freqs) == h.exp_sff.shape and np.allclose(s.smooth_fa_freqs, h.exp_sff, rtol=1e-13, atol=0))
+        ctx.oracle('C04 smooth_fa_freqs are the frequencies last set (by value, range or point count)', okf,
+                   inputs=None if okf else h.inputs('smooth_fa_freqs'),
+                   detail=None if okf else {'object': O.brief(s.smooth_fa_freqs), 'expected': O.brief(h.exp_sff)},
+                   facts=None if okf else {'history': opnames, 'quantity': 'smooth_fa_freqs', 'class': cls})
+        if cls == 'AccSignal':
+            okr = np.shape(s.response_times) == h.exp_rt.shape and bool(np.array_equal(np.asarray(s.response_times, dtype=float), h.exp_rt))
+            ctx.oracle('C04 response_times are the periods last set', okr, inputs=None if okr else h.inputs('response_times'),
+                       detail=None if okr else {'object': O.brief(s.response_times), 'expected': O.brief(h.exp_rt)},
+                       facts=None if okr else {'history': opnames, 'quantity': 'response_times', 'class': cls})
     for q in quants:
         if collect is not None:
             if not fresh[q]:
@@ -200,6 +222,16 @@ def corpus(ctx, rows, base):
              [READALL, 'rebase_displacement'], [READALL, 'reset_values', 'remove_rolling_average/velocity'],
              ['smooth_fa_spectrum', 'gen_smooth_fa_spectrum/given'], ['pgv', 'set_zero_residual_velocity'],
              ['velocity', 'running_average', 'pgd']]
+    # 'same range as before' after the frequencies were replaced by other means (the argument makers of _c04_ops repeat the
+    # remembered range / the constructor default half of the time, hence the repetitions)
+    rep = [['set_smooth_fa_frequecies_by_range', 'smooth_fa_freqs=', 'set_smooth_fa_frequecies_by_range', 'smooth_fa_spectrum'],
+           ['set_smooth_fa_frequecies_by_range', 'smooth_fa_spectrum', 'gen_smooth_fa_spectrum/given',
+            'set_smooth_fa_frequecies_by_range', 'smooth_fa_spectrum'],
+           ['smooth_fa_frequencies=', 'set_smooth_fa_frequecies_by_range', 'smooth_fa_frequencies=',
+            'set_smooth_fa_frequecies_by_range'],
+           ['smooth_freq_points=', 'smooth_fa_freqs=', 'smooth_freq_points=', 'smooth_fa_spectrum'],
+           ['smooth_freq_range=', 'smooth_fa_freqs=', 'smooth_freq_range=', 'smooth_fa_spectrum']]
+    words = words + [w for w in rep for _ in range(6)]
     for w in words:
         if all(x in rows or x in QUANTS or x == READALL for x in w):
             ctx.hist('corpus')
